@@ -265,40 +265,41 @@ where
 
         // Handle backrefs that come after by finding the first address after
         // our write, truncating it to the appropriate size, and rewriting it
-        let address_after_write = address + (value.bits() / 8) as u64;
+        // The last byte written must have an address. The address after it does
+        // not exist when the write ends at the top of the address space, and
+        // then there is nothing after the write to take care of.
+        let bytes = (value.bits() / 8) as u64;
+        let last_address = address
+            .checked_add(bytes - 1)
+            .ok_or("Storing value in paged memory beyond the end of the address space")?;
+        let address_after_write = last_address.checked_add(1);
 
-        let value_to_write = if let Some(MemoryCell::Backref(backref_address)) =
-            self.load_cell(address_after_write)
+        let value_to_write = match address_after_write.map(|after| (after, self.load_cell(after)))
         {
-            let backref_value = self
-                .load_cell(*backref_address)
-                .ok_or("Backref cell pointed to null cell")?
-                .value()
-                .ok_or("Backref cell pointed to cell without value")?;
-            // furthest most address backref value reaches
-            let backref_furthest_address = backref_address + (backref_value.bits() / 8) as u64;
-            // how many bits are left after our write
-            let left_bits = ((backref_furthest_address - address_after_write) * 8) as usize;
-            // load that value
-            self.load(address_after_write, left_bits)?
-        } else {
-            None
+            Some((after, Some(MemoryCell::Backref(backref_address)))) => {
+                let backref_value = self
+                    .load_cell(*backref_address)
+                    .ok_or("Backref cell pointed to null cell")?
+                    .value()
+                    .ok_or("Backref cell pointed to cell without value")?;
+                // how many bits are left after our write
+                let left_bits =
+                    backref_value.bits() - ((after - backref_address) * 8) as usize;
+                // load that value
+                self.load(after, left_bits)?.map(|value| (after, value))
+            }
+            _ => None,
         };
 
-        if let Some(value_to_write) = value_to_write {
-            self.store_no_backref(address_after_write, value_to_write);
+        if let Some((after, value_to_write)) = value_to_write {
+            self.store_no_backref(after, value_to_write);
         }
 
         // handle values we overwrite before this write
         let value_to_write =
             if let Some(MemoryCell::Backref(backref_address)) = self.load_cell(address) {
-                let backref_value = self.load_cell(*backref_address).unwrap().value().unwrap();
-                // furthest most address backref value reaches
-                let backref_furthest_address = backref_address + (backref_value.bits() / 8) as u64;
-                // how many bits are we about to overwrite
-                let overwrite_bits = (backref_furthest_address - address) * 8;
-                // how many bits are left over
-                let left_bits = backref_value.bits() - overwrite_bits as usize;
+                // how many bits are left over before our write
+                let left_bits = ((address - backref_address) * 8) as usize;
                 Some((*backref_address, self.load(*backref_address, left_bits)?))
             } else {
                 None
